@@ -1,4 +1,4 @@
-import SamplyModel.Model.ConvSpec
+import SamplyModel.Lemmas.LifeStep
 /-!
 # C17 — process / thread names and lifetimes follow COMM, EXEC, FORK and EXIT (first instalment)
 
@@ -106,3 +106,24 @@ example : (views (run { ref := 12 } C17_exHistory)).map (fun v => [v.pid, v.tid,
      ["200.1", "200.1", "child", "child"], ["100", "101", "worker", "parent"]] := by decide
 example : (views (run { ref := 12 } C17_exHistory)).map (fun v => (v.start, v.end_)) =
     [(0, none), (1, some 2), (2, some 9), (4, some 7)] := by decide
+
+/-! ### The refinement -/
+
+def C17_rowOf (v : View) : Life.Row :=
+  { pid := v.pid, tid := v.tid, isMain := v.isMain, name := v.name, processName := v.processName,
+    start := v.start, end_ := v.end_, pstart := v.pstart, pend := v.pend }
+
+/-- default options + kernel record grammar: the converter's thread entries, with their names and
+    lifetimes, are exactly the incarnations of the eager reading of the history, in creation order -/
+theorem C17_refines (cfg : Config) (rs : List Rec) (hr : cfg.reuse = false)
+    (hg : Life.grammarOk cfg.ref rs = true) :
+    (views (run cfg rs)).map C17_rowOf = Life.rows (Life.run cfg.ref rs) :=
+  LifeL.views_rows (LifeL.sim_run cfg rs hr hg)
+
+/-- regression: an executable MMAP2 for an unbound pid before the first sample creates the process entry on
+both sides (the eager specification originally created nothing here) -/
+example : Life.grammarOk 0 [.mmap2 5 5 0x1000 0x1000 0 true "lib" 3] = true ∧
+    (views (run {} [.mmap2 5 5 0x1000 0x1000 0 true "lib" 3])).map C17_rowOf =
+      Life.rows (Life.run 0 [.mmap2 5 5 0x1000 0x1000 0 true "lib" 3]) ∧
+    (Life.rows (Life.run 0 [.mmap2 5 5 0x1000 0x1000 0 true "lib" 3])).map (fun r => [r.pid, r.tid, r.name]) =
+      [["5", "5", "<5>"]] := by decide
